@@ -26,6 +26,8 @@ type VarDef struct {
 
 // VarsCase is a C13 case.
 type VarsCase struct {
+	// ProjDir names the directory holding the spokfile ("" = proj)
+	ProjDir string            `json:"proj_dir,omitempty"`
 	Vars    []VarDef          `json:"vars"`
 	Ambient map[string]string `json:"ambient"`
 	DotEnv  map[string]string `json:"dotenv"`
@@ -56,6 +58,12 @@ var execChoices = []execChoice{
 var joinSegs = []string{".", "..", "", "a/b/", "dist", "/abs/root", "x", "./y//z", "../up", "out dir", "out", "dir", "a b", "a", "b", "link", "sub", "real", "link/sub"}
 
 func genVars(t *rapid.T) VarsCase {
+	c := genVarsBody(t)
+	c.ProjDir = genProjDir(t)
+	return c
+}
+
+func genVarsBody(t *rapid.T) VarsCase {
 	c := VarsCase{Ambient: map[string]string{"AMB_A": "ambient-a", "BOTH_C": "ambient-c"}, DotEnv: map[string]string{"DOT_B": "dotenv-b", "BOTH_C": "dotenv-c"}}
 	if rapid.IntRange(0, 3).Draw(t, "no_dotenv") == 0 {
 		c.DotEnv = map[string]string{}
@@ -160,7 +168,7 @@ func (c VarsCase) source() (src string, cmds map[string][2]string) {
 }
 
 func execVars(s *ev.Shard, b *sandbox.Box, c VarsCase) *rp.Fail {
-	if err := b.Reset(); err != nil {
+	if err := b.ResetAs(c.ProjDir); err != nil {
 		return &rp.Fail{Sig: "harness", Msg: err.Error()}
 	}
 	src, _ := c.source()
